@@ -728,13 +728,39 @@ pub(super) fn write_description(
 ) {
     let tabs = tab(options).repeat(level);
 
-    if options.prefer_single_line_descriptions && !description.contains('\n') {
-        let description = description.replace('"', r#"\""#);
-        writeln!(sdl, "{tabs}\"{description}\"").ok();
+    if (options.prefer_single_line_descriptions && !description.contains('\n'))
+        || !is_block_string_value(description)
+    {
+        writeln!(sdl, "{tabs}\"{}\"", escape_string(description)).ok();
     } else {
-        let description = description.replace('\n', &format!("\n{tabs}"));
+        let description = description
+            .replace("\"\"\"", "\\\"\"\"")
+            .replace('\n', &format!("\n{tabs}"));
         writeln!(sdl, "{tabs}\"\"\"\n{tabs}{description}\n{tabs}\"\"\"").ok();
     }
+}
+
+/// Whether a block string whose content starts on its own line reads back as
+/// exactly `s`: block strings drop leading and trailing blank lines and the
+/// indentation common to all lines, and turn every line terminator into `\n`.
+fn is_block_string_value(s: &str) -> bool {
+    fn is_blank(line: &str) -> bool {
+        line.chars().all(|c| c == ' ' || c == '\t')
+    }
+
+    if s.is_empty() {
+        return true;
+    }
+    if s.contains('\r') {
+        return false;
+    }
+    let mut lines = s.split('\n');
+    let first = lines.next().unwrap_or_default();
+    let last = lines.next_back().unwrap_or(first);
+    !is_blank(first)
+        && !is_blank(last)
+        && s.split('\n')
+            .any(|line| !is_blank(line) && !line.starts_with([' ', '\t']))
 }
 
 fn write_input_value(sdl: &mut String, input_value: &MetaInputValue) {
